@@ -20,6 +20,16 @@ def c02(tier):
     def relevant(mm, sess, runs):
         return mm['kind'] in ('conformance', 'abort')
 
+    import mach, vlib
+    mcov = {}
+
+    def machine_check(verdict, sessions, wd):
+        # the slot-level environment model (spec/Machine.tla): every lambda's captured-variable set must contain
+        # every free variable bound by the enclosing lambda, CLOSURE / ENTER build the environments with the
+        # pointer indirection that makes closures share locations; compiler listing and register trace
+        mcov.update(mach.run(verdict, wd, [('scope2', 15 if q else 800), ('scope3', 20 if q else 1500),
+                                           ('scopeloop', 8 if q else 200)], vlib.seed()))
+
     def extra(sessions, ends):
         n = {1: 0, 2: 0, 3: 0, 4: 0}
         for S in sessions.values():
@@ -27,7 +37,7 @@ def c02(tier):
                 for t in s.get('tags', []):
                     if t.startswith('scope:'):
                         n[t.split('/')[0].count('-') + 1] += 1
-        return {'skeletons_by_levels': {str(k): v for k, v in n.items()},
+        return {'compiler_and_instruction_traces': mcov, 'skeletons_by_levels': {str(k): v for k, v in n.items()},
                 'exhaustive_levels': [1] if q else [1, 2],
                 'exhaustive': False,
                 'space': {'1': 432, '2': 23328, '3': 1259712, '4': 68024448}}
@@ -39,4 +49,4 @@ def c02(tier):
         'creation, closures invoked inside the creator, after it returned and repeatedly (separate activations); '
         'the whole read log is compared with the CEK machine. L=1 exhaustive; L=2 %s; L=3,4 random; closures created in loops'
         % ('every 23rd skeleton' if q else 'exhaustive'),
-        extra_cov=extra)
+        extra_cov=extra, extra_check=machine_check)
